@@ -355,6 +355,10 @@ def run(ctx):
     # every journal, batch, item, keyspace folder and watermark is visited
     D.loops_visit_all(ctx, "R-C02.15")
 
+    # ---- R-C02.19 the batch commit's "nothing to do" answer is given only for a batch without items: the early Ok is on the
+    #      true edge of `is_empty()`, and is_empty / len are `data.len() == 0` / `data.len()`
+    empty_batch_shortcut(ctx, "R-C02.19")
+
     # ---- borrowed obligations (mechanisms owned by other properties that this property's verdict also rests on)
     # an acknowledged value comes back only if what is journaled under a compression tag is that codec's output
     ctx.borrow("C15", ["R-C15.14"], "R-C02.18")
@@ -604,3 +608,38 @@ def first_open_is_resumable(ctx, rule):
         ctx.ob(rule, cor, "interrupted-creation-is-resumed", okc,
                "a folder that holds only what create_new lays out before the marker is handed to create_new" if okc else
                "create_or_recover never resumes an interrupted first creation: the folder is refused forever")
+
+
+def empty_batch_shortcut(ctx, rule):
+    bc = ctx.fn("batch::WriteBatch::commit", rule)
+    ie = ctx.fn("batch::WriteBatch::is_empty", rule)
+    ln = ctx.fn("batch::WriteBatch::len", rule)
+    if ie and ln:
+        t = ctx.og(ie).of_local(0)
+        l = ctx.og(ln).of_local(0)
+        ok_len = l.k == "call" and l.a[0].endswith("::len") and "Vec" in l.a[0] and A.tstr(l.a[1][0]).endswith("P1(self).data")
+        ok_ie = t.k == "bin" and t.a[0] == "Eq" and any(x.k == "call" and x.a[0] == "batch::WriteBatch::len" for x in (t.a[1], t.a[2])) and \
+            any(x.k == "const" and tuple(x.a[:2]) == ("int", 0) for x in (t.a[1], t.a[2]))
+        # (`self.data.is_empty()` is the same thing)
+        ok_ie = ok_ie or (t.k == "call" and t.a[0].endswith("::is_empty") and "Vec" in t.a[0] and A.tstr(t.a[1][0]).endswith("P1(self).data"))
+        ctx.ob(rule, ie, "empty-means-no-items", ok_len and ok_ie, "is_empty = (data.len() == 0)" if ok_len and ok_ie else
+               "WriteBatch::is_empty is %s with len = %s: a batch that has items can be taken for empty and acknowledged without being written" % (A.tstr(t)[:80], A.tstr(l)[:60]))
+    if bc:
+        calls = [b for b, t in bc.calls() if A.cname(t) == "batch::WriteBatch::is_empty"]
+        ok = False
+        detail = "commit does not ask is_empty()"
+        if len(calls) == 1:
+            sw = A.switch_after_call(bc, calls[0])
+            if sw is not None:
+                f_t, t_t = A.bool_edges(bc, sw)
+                # every Ok return that does not pass the journal append lies behind the TRUE edge only
+                app = R.append_blocks(bc) if hasattr(R, "append_blocks") else [b for b, t in bc.calls() if A.cname(t).endswith("Writer::write_batch")]
+                errs = list(A.error_starts(bc))
+                r_false = A.reach(bc, f_t, avoid=app + errs)
+                early_false = [x for x in bc.return_blocks() if x in r_false]
+                r_true = A.reach(bc, t_t, avoid=errs)
+                answers_true = [x for x in bc.return_blocks() if x in r_true]
+                ok = bool(app) and not early_false and bool(answers_true)
+                detail = "the early Ok lies on the is_empty() == true edge only; every other success passes the journal append" if ok else \
+                    "a batch with items can be acknowledged without passing the journal append (returns reachable on the non-empty edge avoiding write_batch: %d)" % len(early_false)
+        ctx.ob(rule, bc, "nothing-to-do-only-for-an-empty-batch", ok, detail)
